@@ -188,7 +188,11 @@ func (e *Exec) callFunc(st *State, f *ssa.Function, bindings, args []Value, pos 
 		}
 		return e.applyContract(st, spec, f.Signature, f.Params, args, key, pos)
 	}
-	if nat, ok := natives[key]; ok {
+	nkey := key
+	if i := strings.Index(nkey, "["); i > 0 && !strings.HasPrefix(nkey, "(") {
+		nkey = nkey[:i] // instance of a generic function
+	}
+	if nat, ok := natives[nkey]; ok {
 		e.Externs[key] = true
 		return nat(e, st, f, args, pos)
 	}
@@ -1305,6 +1309,28 @@ func readOnlyStdlib(key string) bool {
 		return false
 	}
 	pkg, name := key[:i], key[i+1:]
+	if j := strings.Index(key, "["); j > 0 {
+		// instance of a generic function: pkg.Name[type args]
+		base := key[:j]
+		k := strings.LastIndex(base, ".")
+		if k < 0 {
+			return false
+		}
+		pkg, name = base[:k], base[k+1:]
+	}
+	switch pkg {
+	case "slices":
+		switch name {
+		case "Contains", "ContainsFunc", "Index", "IndexFunc", "Equal", "EqualFunc", "Compare", "CompareFunc", "Max", "Min", "MaxFunc", "MinFunc",
+			"BinarySearch", "BinarySearchFunc", "IsSorted", "IsSortedFunc", "Clone", "Concat", "Repeat":
+			return true
+		}
+		return false
+	case "sort":
+		return strings.HasPrefix(name, "Search") || strings.HasSuffix(name, "IsSorted") || strings.HasSuffix(name, "AreSorted")
+	case "cmp":
+		return true
+	}
 	switch pkg {
 	case "bytes", "strings", "unicode", "unicode/utf8", "unicode/utf16", "math", "math/bits", "errors", "strconv", "path", "path/filepath", "net/url", "encoding/hex", "encoding/base64", "crypto/subtle":
 	default:
